@@ -257,6 +257,8 @@ def check_url_file_relative_sim(chk):
             except RaiseSig as sig:
                 chk.bad('C17.U', mod, func.name, f'url_file_relative({f!r}, {u!r}) raises {sig.cls}', f'url_file_relative({f!r}, {u!r}) raises {sig.cls}', node=func)
                 return False
+            if not isinstance(got, str):
+                raise Unrecognised('C17.U', f'url_file_relative({f!r}, {u!r}) evaluates to the unmodelled value {got!r}', mod.rel)
             if got != want:
                 chk.bad('C17.U', mod, func.name, f'url_file_relative({f!r}, {u!r}) = {got!r}',
                         f'evaluation: url_file_relative({f!r}, {u!r}) gives {got!r}; resolving the reference against the file that contains the include gives {want!r} (absolute URLs and absolute '
